@@ -46,7 +46,7 @@ func applyCore() {
 	for i := range ops {
 		mx := vx.ParamOr("maxtok"+itoa(i), vx.Param("maxtok"))
 		mn := vx.ParamOr("mintok"+itoa(i), 0)
-		ops[i] = genOp("op"+itoa(i), vx.Param("kmask"+itoa(i)), mn, mx, vx.Param("tokmask"), vx.Param("nvals"))
+		ops[i] = genOp("op"+itoa(i), vx.Param("kmask"+itoa(i)), mn, mx, vx.ParamOr("tokmask"+itoa(i), vx.Param("tokmask")), vx.Param("nvals"))
 	}
 	checkApplyOpts(doc, ops, vx.ParamOr("optmask", 0))
 }
@@ -115,7 +115,7 @@ func checkApplyOpts(doc *JV, ops []Op, optmask int) {
 	}
 	o := jsonpatch.NewApplyOptions()
 	o.SupportNegativeIndices = neg
-	ro := RefOpts{NegIdx: neg}
+	ro := RefOpts{NegIdx: neg, EmptyTok: vx.ParamOr("emptytok", 0) == 1}
 	escape := true
 	var limit int64
 	if optmask&1 != 0 {
@@ -406,6 +406,13 @@ func H_PackageDefault_Sequence() {
 		}
 	})
 	vx.Assert(!panicked, "C04/apply-no-panic")
+	vx.Assert(!panicked, "C01/apply-returns")
+	vx.Assert(!panicked, "C05/apply-returns")
+	vx.Assert(!panicked, "C08/apply-returns")
+	vx.Assert(!panicked, "C12/apply-returns")
+	vx.Assert(!panicked, "C13/apply-returns")
+	vx.Assert(!panicked, "C14/apply-returns")
+	vx.Assert(!panicked, "C15/apply-returns")
 	if panicked {
 		return
 	}
